@@ -740,7 +740,11 @@ def der_decode_partial(data: bytes) -> Tuple[object, int]:
 
     if asn1_class == UNIVERSAL and tag in _der_class_by_tag:
         cls = _der_class_by_tag[tag]
-        value = cls.decode(constructed, content)
+
+        try:
+            value = cls.decode(constructed, content)
+        except (ASN1EncodeError, UnicodeDecodeError) as exc:
+            raise ASN1DecodeError(str(exc)) from None
     elif constructed:
         value = TaggedDERObject(tag, der_decode(content), asn1_class)
     else:
